@@ -317,6 +317,33 @@ func C18(run *hx.Run) {
 		}
 		run.See("stored_class", hx.Class(v))
 	}
+	// typed nil pointers of the supported kinds ((*string)(nil), ...): there is nowhere to store the value -
+	// that is an unusable destination, to be reported as an error like the other unsupported ones, never a panic
+	typedNils := map[string]interface{}{"*string": (*string)(nil), "*[]byte": (*[]byte)(nil), "*int64": (*int64)(nil), "*int32": (*int32)(nil),
+		"*int": (*int)(nil), "*bool": (*bool)(nil), "*float64": (*float64)(nil), "*time.Time": (*time.Time)(nil)}
+	for vi, v := range vals {
+		if vi%5 != 0 && vi > 60 {
+			continue
+		}
+		for name, d := range typedNils {
+			for _, row := range []sqlittle.Row{{v}, {}, {int64(1), v}} {
+				var err error
+				args := []interface{}{d}
+				if len(row) == 2 {
+					args = []interface{}{new(int64), d}
+				}
+				p, pm := safely(func() { err = row.Scan(args...) })
+				run.Eval(1)
+				run.DistinctN(1)
+				if p {
+					run.Violation("C18/panic/nil-pointer-destination/"+name, fmt.Sprintf("Row%s.Scan with a nil %s destination panicked: %s", hx.RowString(hx.Row(row)), name, firstLines(pm, 2)), nil)
+				} else if err == nil {
+					run.Violation("C18/nil-pointer-destination-accepted/"+name, fmt.Sprintf("Row%s.Scan with a nil %s destination returned no error", hx.RowString(hx.Row(row)), name), nil)
+				}
+			}
+		}
+	}
+	run.See("destination_kind", "typed nil pointers")
 	// random rows x random destination lists, arities 0..width+2
 	rng := newRng(run, 181)
 	trials := 20000
